@@ -16,10 +16,10 @@ FAMILY_VARIANTS = {
     "order_rows": ALLV + POLV,
     "conflict_ortho": ALLV + POLV,
     "flags": ALLV + ["B+p3", "M+p3"],
-    "fe_player": ["B", "B+feR", "B+feR2", "B+feP", "M", "M+feR", "M+feP"],
-    "fe_conflict": ["B", "B+feR", "B+feR2", "B+feP", "M", "M+feR", "M+feP"],
-    "fe_guard_shapes": ["B", "B+feP", "M", "M+feP"],
-    "fe_guard_groups": ["B", "B+feP", "M", "M+feP"],
+    "fe_player": ["B", "B+feR", "B+feR2", "B+feP", "B+feE", "BC+feE", "M", "M+feR", "M+feP", "M+feE"],
+    "fe_conflict": ["B", "B+feR", "B+feR2", "B+feP", "B+feE", "BC+feE", "M", "M+feR", "M+feP", "M+feE"],
+    "fe_guard_shapes": ["B", "B+feP", "B+feE", "M", "M+feP", "M+feE"],
+    "fe_guard_groups": ["B", "B+feP", "B+feE", "M", "M+feP", "M+feE"],
 }
 
 
@@ -193,14 +193,15 @@ PROPS = {
     "C14": {
         "jobs": jobs(["fe_player", "fe_conflict"], ["plain", "queue"], 1000, 40000)
                 + jobs(["fe_guard_shapes", "fe_guard_groups"], ["plain"], 1500, 40000)
-                + [job(f, "common", 1500, 50000, variants=["B", "B+feR", "B+feR2", "B+feP"], mode="diff:frontend") for f in ["fe_player", "fe_conflict"]]
-                + [job(f, "common", 1500, 50000, variants=["M", "M+feR", "M+feP"], mode="diff:frontend") for f in ["fe_player", "fe_conflict"]]
-                + [job(f, "plain", 1500, 50000, variants=["B", "B+feP"], mode="diff:frontend") for f in ["fe_guard_shapes", "fe_guard_groups"]]
-                + [job(f, "plain", 1500, 50000, variants=["M", "M+feP"], mode="diff:frontend") for f in ["fe_guard_shapes", "fe_guard_groups"]],
+                + [job(f, "common", 1500, 50000, variants=["B", "B+feR", "B+feR2", "B+feP", "B+feE"], mode="diff:frontend") for f in ["fe_player", "fe_conflict"]]
+                + [job(f, "common", 1500, 50000, variants=["M", "M+feR", "M+feP", "M+feE"], mode="diff:frontend") for f in ["fe_player", "fe_conflict"]]
+                + [job(f, "plain", 1500, 50000, variants=["B", "B+feP", "B+feE"], mode="diff:frontend") for f in ["fe_guard_shapes", "fe_guard_groups"]]
+                + [job(f, "plain", 1500, 50000, variants=["M", "M+feP", "M+feE"], mode="diff:frontend") for f in ["fe_guard_shapes", "fe_guard_groups"]],
         "tokenizer": {"quick": 20000, "thorough": 2000000},
         "nontrivial": ["multi_candidate"],
-        "rule": "one flat machine written as functor rows, basic member-function rows, row2 rows (methods of the source state) and as a "
-                "PlantUML text with seeded formatting noise (1-4 dashes, blanks and tabs, '/ actions' before or after '[guard]', state "
+        "rule": "one flat machine written as functor rows, basic member-function rows, row2 rows (methods of the source state), as an eUML "
+                "transition-table expression (guards written with the C++ operators over functor instances, action sequences with the "
+                "comma operator) and as a PlantUML text with seeded formatting noise (1-4 dashes, blanks and tabs, '/ actions' before or after '[guard]', state "
                 "entry/exit/flag/terminate lines sprinkled between the rows, half of the states defined by text lines), on back and backmp11; "
                 "every variant in lockstep with the model and all variants of one back-end compared with each other on the same plans (guard "
                 "leaf evaluation order included, so precedence and short-circuiting of !, &&, || and parentheses are observable); "
